@@ -219,6 +219,12 @@ pub fn gen_world(rng: &mut Rng, o: &WorldOpts) -> (WorldSpec, bool) {
             synth_vocab(rng, &samples)
         }
     };
+    let mut vocab = vocab;
+    if !_tokref && rng.chance(0.15) {
+        // multi-EOS vocabulary: <|pad|> is a second end-of-sequence token
+        let base = vocab.words.len() - SPECIALS.len();
+        vocab.eos_extra = vec![(base + 2) as u32];
+    }
     let canonical = o.canonical.unwrap_or_else(|| rng.chance(0.4));
     let slices = if o.slices_unsliced {
         Some(vec![])
@@ -286,7 +292,13 @@ impl<'r> G<'r> {
         match self.rng.below(10) {
             0..=4 => Pick::Mask(r),
             5..=6 => Pick::Outside(r),
-            7 => Pick::Eos,
+            7 => {
+                if r % 2 == 0 {
+                    Pick::Eos
+                } else {
+                    Pick::EosAlt(r >> 1)
+                }
+            }
             8 => Pick::Longest(r),
             _ => Pick::Tok((r % 300) as u32),
         }
@@ -706,7 +718,47 @@ fn gen_c10(rng: &mut Rng, seed: u64, index: u64, long: bool) -> Scenario {
 
 // ---------------------------------------------------------------------------------------- C11
 
+/// C11 at the sampling-loop level: a constraint driven step by step must answer like a fresh
+/// constraint that replayed the same tokens (start_without_prompt + force_tokens) and like a fresh
+/// matcher; computing the mask twice in a row changes nothing
+fn gen_c11_constraint(rng: &mut Rng, seed: u64, index: u64, long: bool) -> Scenario {
+    let mut o = WorldOpts::default();
+    o.avoid_tags = vec!["heavy", "tokref"];
+    o.prefer_tags = vec!["stopc", "ff"];
+    let (world, productive) = gen_world(rng, &o);
+    let ff = world.canonical && rng.chance(0.5);
+    let mut sc = base("C11", "cache_constraint", seed, index, world, productive);
+    let steps = if long { rng.range(20, 50) } else { rng.range(8, 24) };
+    let mut g = G { rng, ops: vec![] };
+    g.ops.push(Op::New {
+        h: 0,
+        kind: HKind::Constraint { ff },
+        alt: None,
+    });
+    for _ in 0..steps {
+        let p = match g.rng.below(10) {
+            0..=1 => Pick::Mask(g.rng.next_u64()),
+            _ => g.honest(),
+        };
+        g.ops.push(Op::CMaskOnly { h: 0 });
+        g.ops.push(Op::ChkText { h: 0 });
+        if g.rng.chance(0.2) {
+            // asking twice is allowed and must not change the answer
+            g.ops.push(Op::CMaskOnly { h: 0 });
+            g.ops.push(Op::ChkText { h: 0 });
+        }
+        g.ops.push(Op::CCommitOnly { h: 0, pick: p });
+    }
+    g.ops.push(Op::CMaskOnly { h: 0 });
+    g.ops.push(Op::ChkText { h: 0 });
+    sc.tasks = vec![g.ops];
+    sc
+}
+
 fn gen_c11(rng: &mut Rng, seed: u64, index: u64, long: bool) -> Scenario {
+    if rng.chance(0.15) {
+        return gen_c11_constraint(rng, seed, index, long);
+    }
     let faulty = rng.chance(0.15);
     let mut o = WorldOpts::default();
     o.tight_limits = faulty;
@@ -851,7 +903,7 @@ fn gen_c12(rng: &mut Rng, seed: u64, index: u64, long: bool) -> Scenario {
                 2 => {
                     g.ops.push(Op::Commit {
                         h: 0,
-                        pick: Pick::Eos,
+                        pick: Pick::EosAlt(g.rng.next_u64()),
                         fuel_at: None,
                     });
                     // only counts if accepted; the executor's model is authoritative, k below is
@@ -948,7 +1000,8 @@ pub fn random_prompt(rng: &mut Rng, vocab: &VocabSpec) -> Vec<u32> {
 
 fn gen_c13(rng: &mut Rng, seed: u64, index: u64, long: bool) -> Scenario {
     let mut o = WorldOpts::default();
-    o.avoid_tags = vec!["heavy", "tokref"];
+    // token-reference grammars take part too (forced special tokens); the byte-replica clauses skip them
+    o.avoid_tags = vec!["heavy"];
     o.prefer_tags = vec!["ff"];
     o.canonical = Some(true);
     let (world, productive) = gen_world(rng, &o);
@@ -1471,6 +1524,9 @@ pub fn gen_stop_ctrl(rng: &mut Rng, seed: u64, index: u64, long: bool, prop: &st
             world.vocab.words.insert(at + i, hex(e));
         }
         world.vocab.eos = (world.vocab.words.len() - 1) as u32;
+        if !world.vocab.eos_extra.is_empty() {
+            world.vocab.eos_extra = vec![(world.vocab.words.len() - SPECIALS.len() + 2) as u32];
+        }
         world.vocab.mode = TokMode::Greedy;
     }
     let nv = world.vocab.words.len() as u32;
@@ -1535,6 +1591,19 @@ pub fn gen_stop_ctrl(rng: &mut Rng, seed: u64, index: u64, long: bool, prop: &st
         if rng.chance(0.04) {
             // a special (non-stop) token in the stream
             toks.push(specials_base);
+        }
+        // ... and sometimes right inside an occurrence of a stop string (the text then contains
+        // no stop string: matching restarts at a special token)
+        for s in &stop_strings {
+            let sb = s.as_bytes();
+            if sb.len() >= 2 && pos < text.len() && pos >= 1 && rng.chance(0.25) {
+                for cut in 1..sb.len() {
+                    if pos >= cut && text[pos - cut..].starts_with(sb) {
+                        toks.push(specials_base);
+                        break;
+                    }
+                }
+            }
         }
     }
     if !stop_tokens.is_empty() && rng.chance(0.5) {
@@ -1642,7 +1711,7 @@ fn gen_c18(rng: &mut Rng, seed: u64, index: u64, long: bool) -> Scenario {
                     },
                     5 => Op::Commit {
                         h: 0,
-                        pick: Pick::Eos,
+                        pick: Pick::EosAlt(g.rng.next_u64()),
                         fuel_at: None,
                     },
                     _ => Op::TryConsume {
@@ -1655,8 +1724,10 @@ fn gen_c18(rng: &mut Rng, seed: u64, index: u64, long: bool) -> Scenario {
                 g.ops.push(Op::Mask { h: 0, fuel_at: None });
                 g.ops.push(Op::MaskOrEos { h: 0 });
             } else {
-                let p = match g.rng.below(10) {
+                let p = match g.rng.below(12) {
                     0..=1 => Pick::Mask(g.rng.next_u64()),
+                    // an end-of-sequence token (any of them in a multi-EOS vocabulary), allowed or not
+                    2 => Pick::EosAlt(g.rng.next_u64()),
                     _ => g.honest(),
                 };
                 if g.rng.chance(0.15) {
@@ -1717,13 +1788,14 @@ fn gen_c18(rng: &mut Rng, seed: u64, index: u64, long: bool) -> Scenario {
                     3 => Op::CMaskOnly { h: 0 }, // mask twice
                     _ => Op::CStep {
                         h: 0,
-                        pick: Pick::Eos,
+                        pick: Pick::EosAlt(g.rng.next_u64()),
                     },
                 };
                 g.ops.push(op);
             } else {
-                let p = match g.rng.below(10) {
+                let p = match g.rng.below(12) {
                     0..=1 => Pick::Mask(g.rng.next_u64()),
+                    2 => Pick::EosAlt(g.rng.next_u64()),
                     _ => g.honest(),
                 };
                 g.ops.push(Op::CStep { h: 0, pick: p });
